@@ -650,7 +650,7 @@ func TestVerif_C25(t *testing.T) {
 	venum.Begin("C25")
 	defer venum.Finish(t)
 	vfC25Strings(t)
-	depth := venum.QT(5, 9)
+	depth := venum.QT(5, 8)
 	vfC25History(t, "1", 1, depth)
 	vfC25History(t, "2", 2, depth)
 	vfC25History(t, "default", 0, depth)
